@@ -46,6 +46,9 @@ def gen_menu(method, honesty=False):
     else:
         for ne in (2, 5):
             out.append(('Min', dict(num_extrap=ne)))
+    if honesty:         # a bare scalar step: a single estimate is left, its error estimate comes from another branch
+        out.append(('scalar', dict(step=1e-3)))
+        out.append(('scalar', dict(step=1e-4)))
     for st in (0.1, 1e-2):
         out.append(('scalar', dict(step=st, num_extrap=5)))
     return out
@@ -55,7 +58,7 @@ def quick_gen_menu(method, honesty=False):
     """user generators of the menu that also run in the quick tier (on a rotating slice of programs)"""
     if method in ('central', 'forward', 'backward'):
         return [('Max', dict(base_step=0.25, num_steps=15, step_ratio=2))] + (
-            [('Max', dict(step_ratio=4.0, num_steps=20))] if honesty else [])
+            [('Max', dict(step_ratio=4.0, num_steps=20)), ('scalar', dict(step=1e-3))] if honesty else [])
     return [('Min', dict(num_extrap=5))]
 
 
